@@ -659,11 +659,18 @@ func c20Book(c *Ctx) {
 	bad := ""
 	n := 0
 	// NewBook itself, or the helper of its package the line-playing loop was moved into
-	for _, host := range funcFamily(nb) {
-		host := host
-		genEqual := func(v ssa.Value, at *ssa.BasicBlock, depth int) (ssa.Value, ssa.Value, ssa.Value, bool) {
-			return c.genEqual(host, v, at, depth)
-		}
+	// recording events: the map update that files a move, seen from the function that decides which move - the
+	// update itself, or the call of a small helper whose parameters are the key and the move
+	type recEv struct {
+		host  *ssa.Function
+		b     *ssa.BasicBlock
+		key   ssa.Value // the move recorded
+		mapV  ssa.Value // the inner map expression (a lookup in the outer map)
+		subst func(ssa.Value) ssa.Value
+	}
+	var events []recEv
+	fam := funcFamily(nb)
+	for _, host := range fam {
 		for _, b := range host.Blocks {
 			for _, ins := range b.Instrs {
 				mu, ok := ins.(*ssa.MapUpdate)
@@ -673,8 +680,43 @@ func c20Book(c *Ctx) {
 				if _, isBool := mu.Value.(*ssa.Const); !isBool {
 					continue // the outer map's lazily created inner map
 				}
+				if prm, isParam := stripConv(mu.Key).(*ssa.Parameter); isParam {
+					// recorded through a parameter: one event per call of this helper from the family
+					for _, caller := range fam {
+						for _, cb := range caller.Blocks {
+							for _, ci := range cb.Instrs {
+								call, ok := ci.(*ssa.Call)
+								if !ok || call.Call.StaticCallee() != host {
+									continue
+								}
+								hh, cc := host, call
+								subst := func(v ssa.Value) ssa.Value {
+									for i, p := range hh.Params {
+										if ssa.Value(p) == stripConv(v) && i < len(cc.Call.Args) {
+											return cc.Call.Args[i]
+										}
+									}
+									return v
+								}
+								events = append(events, recEv{caller, cb, subst(prm), mu.Map, subst})
+							}
+						}
+					}
+					continue
+				}
+				events = append(events, recEv{host, b, mu.Key, mu.Map, func(v ssa.Value) ssa.Value { return v }})
+			}
+		}
+	}
+	for _, ev := range events {
+		host, b := ev.host, ev.b
+		genEqual := func(v ssa.Value, at *ssa.BasicBlock, depth int) (ssa.Value, ssa.Value, ssa.Value, bool) {
+			return c.genEqual(host, v, at, depth)
+		}
+		{
+			{
 				n++
-				key := mu.Key // the candidate move
+				key := ev.key // the candidate move
 				pos, turn, parsed, ok := genEqual(key, b, 0)
 				if !ok {
 					bad = joinNonEmpty(bad, "the recorded move is "+pathExpr(key)+", which is not established to be a generated move equal to the parsed text")
@@ -709,23 +751,23 @@ func c20Book(c *Ctx) {
 					}
 				}
 				filed := false
-				if lk, ok := mu.Map.(*ssa.Lookup); ok && fenV != nil {
+				if lk, ok := ev.mapV.(*ssa.Lookup); ok && fenV != nil {
 					idx := lk.Index
 					if sc, ok := idx.(*ssa.Call); ok && sc.Call.StaticCallee() != nil && sc.Call.StaticCallee().Name() == "Strip" && len(sc.Call.Args) == 1 {
-						filed = sc.Call.Args[0] == fenV
+						filed = sameLoad(ev.subst(sc.Call.Args[0]), fenV)
 					} else if !ok {
 						// the stripped key kept in a local
 						var defs []ssa.Value
 						resolveDefs(idx, map[ssa.Value]bool{}, &defs)
 						for _, d := range defs {
-							if sc, ok := d.(*ssa.Call); ok && sc.Call.StaticCallee() != nil && sc.Call.StaticCallee().Name() == "Strip" && len(sc.Call.Args) == 1 && sc.Call.Args[0] == fenV {
+							if sc, ok := d.(*ssa.Call); ok && sc.Call.StaticCallee() != nil && sc.Call.StaticCallee().Name() == "Strip" && len(sc.Call.Args) == 1 && sameLoad(ev.subst(sc.Call.Args[0]), fenV) {
 								filed = true
 							}
 						}
 					}
 				}
 				if !filed {
-					bad = joinNonEmpty(bad, fmt.Sprintf("the move is generated on %s but filed under %s", pathExpr(pos), pathExpr(mu.Map)))
+					bad = joinNonEmpty(bad, fmt.Sprintf("the move is generated on %s but filed under %s", pathExpr(pos), pathExpr(ev.mapV)))
 				}
 			}
 		}
